@@ -41,7 +41,9 @@ def transform(rng, a, kind, target=None, extreme=False):
             # sum is exact too (strictly increasing affine map: same information)
             f = rng.choice(EXTREME)
             obs = [v for v in col if not isnan(v) and not math.isinf(v)]
-            off = rng.choice([0, 0, 1, -7, f, -3 * f, 1024 * f])
+            # offsets on the scale of the rescaled data: a large offset next to a tiny spread makes
+            # the floating-point R^2 / Pearson r of the implementation meaningless (cancellation)
+            off = rng.choice([0, 0, f, -3 * f, 1024 * f] + ([1, -7] if f > 1 else []))
             # the affine map must be EXACT in binary64 (otherwise values collapse / ties appear)
             if any(c14.Fr(v) * c14.Fr(f) + c14.Fr(off) != c14.Fr(v * f + off) for v in obs):
                 off = 0
@@ -458,6 +460,12 @@ class C15(Prop):
             if tag == "copy" and reg_default and all(type_of(a, f) == "float" for f in case["must"]):
                 sig = "regression_default_distance_measure_sign"
             elif tag == "different" and reg_default and case["kind"] == "negate":
+                sig = "regression_default_distance_measure_sign"
+            elif (tag == "error" and reg_default and case["kind"] == "negate"
+                  and {out["a"]["err"], out["b"]["err"]} == {None, "internal"}
+                  and any(len(c14.case_lists(a, d_)[1]) >= 2 for d_ in ("float", "str"))):
+                # O11 again: r = +1 gives distance 0.0 -> NaN -> no rankable feature -> the second of two
+                # filters raises (C14 finding second-filter-empty); after negation r = -1 is kept
                 sig = "regression_default_distance_measure_sign"
             elif tag == "different" and reg_default and case["kind"] in ("perm_x_only", "perm_y_only"):
                 # distance_measure hands the VALUES of x[~nans], y[~nans] to scipy: paired by position
